@@ -53,25 +53,28 @@ def build(world, log: list, frozen: dict | None = None):
                 # a Parameter-valued loss always creates its loss elements,
                 # whatever the value: mirror that with explicit loss() calls
                 lv = _v(world, e[4], frozen)
-                c.bs(e[1], e[2], _v(world, e[3], frozen), 0, **kw)
-                c.loss(e[1], lv)
-                c.loss(e[1] + 1 if e[2] is None else e[2], lv)
+                m1, m2 = _v(world, e[1], frozen), _v(world, e[2], frozen)
+                c.bs(m1, m2, _v(world, e[3], frozen), 0, **kw)
+                c.loss(m1, lv)
+                c.loss(m1 + 1 if m2 is None else m2, lv)
             else:
-                c.bs(e[1], e[2], _v(world, e[3], frozen), _v(world, e[4], frozen), **kw)
+                c.bs(_v(world, e[1], frozen), _v(world, e[2], frozen),
+                     _v(world, e[3], frozen), _v(world, e[4], frozen), **kw)
         elif k == "ps":
             if _isp(e[3]):
-                c.ps(e[1], _v(world, e[2], frozen), 0)
-                c.loss(e[1], _v(world, e[3], frozen))
+                c.ps(_v(world, e[1], frozen), _v(world, e[2], frozen), 0)
+                c.loss(_v(world, e[1], frozen), _v(world, e[3], frozen))
             else:
-                c.ps(e[1], _v(world, e[2], frozen), _v(world, e[3], frozen))
+                c.ps(_v(world, e[1], frozen), _v(world, e[2], frozen),
+                     _v(world, e[3], frozen))
         elif k == "loss":
-            c.loss(e[1], _v(world, e[2], frozen))
+            c.loss(_v(world, e[1], frozen), _v(world, e[2], frozen))
         elif k == "barrier":
             c.barrier(e[1])
         elif k == "mode_swaps":
             c.mode_swaps({a: b for a, b in e[1]})
         elif k == "herald":
-            c.herald(e[1], e[2], e[3])
+            c.herald(e[1], _v(world, e[2], frozen), _v(world, e[3], frozen))
         elif k == "add":
             c.add(build(world, e[1], frozen), e[2], e[3])
         elif k == "unpack":
